@@ -18,8 +18,8 @@ import (
 // C18 — CLI contract: output path, -out, -dry, -print, -log, GOFILE.
 
 var cliInputs = []struct{ id, name, src string }{
-	{"simple", "setup.go", "//go:build convergen\n\npackage p\n\ntype S struct {\n\tA int\n\tB string\n}\n\ntype D struct {\n\tA int\n\tB string\n\tC int\n}\n\ntype Convergen interface {\n\tConv(*S) *D\n}\n"},
-	{"imports", "my.setup.go", "//go:build convergen\n\npackage p\n\nimport (\n\t\"example.com/m/ext\"\n\t_ \"example.com/m/ext/v2\"\n)\n\ntype S struct {\n\tA int\n\tB string\n}\n\ntype D struct {\n\tA ext.EInt\n\tB string\n}\n\n// :typecast\ntype Convergen interface {\n\t// Conv converts.\n\t// :conv ext.Itoa A B\n\tConv(*S) *D\n}\n"},
+	{"simple", "setup.go", "//go:build convergen\n\npackage p\n\ntype S struct {\n\tA int\n\tB string\n}\n\ntype D struct {\n\tA int\n\tB string\n\tC int\n}\n\n// Pct is 100%d%% sure: a percent sign in carried-over text.\nconst Pct = \"50%\"\n\ntype Convergen interface {\n\tConv(*S) *D\n}\n"},
+	{"imports", "user.gorm.go", "//go:build convergen\n\npackage p\n\nimport (\n\t\"example.com/m/ext\"\n\t_ \"example.com/m/ext/v2\"\n)\n\ntype S struct {\n\tA int\n\tB string\n}\n\ntype D struct {\n\tA ext.EInt\n\tB string\n}\n\n// :typecast\ntype Convergen interface {\n\t// Conv converts.\n\t// :conv ext.Itoa A B\n\tConv(*S) *D\n}\n"},
 	{"two-interfaces", "setup.go", "//go:build convergen\n\npackage p\n\ntype S struct {\n\tA int\n\tB string\n}\n\ntype D struct {\n\tA int\n\tB string\n}\n\nfunc Post(d *D, s *S) error { return nil }\n\ntype Convergen interface {\n\t// :postprocess Post\n\tConv(*S) (*D, error)\n}\n\n// :convergen\ntype Second interface {\n\t// :style arg\n\t// :recv s\n\tFill(*S) *D\n}\n"},
 }
 
@@ -94,7 +94,7 @@ func cliReference(root string, c cliCase) cliPlan {
 	case 3:
 		outAsGiven = rel("outfile")
 	case 4:
-		outAsGiven = rel("a.b.c.go")
+		outAsGiven = rel("o.gopher.go")
 	}
 	if c.Out != 0 {
 		pl.Args = append(pl.Args, "-out", outAsGiven)
